@@ -20,6 +20,7 @@ var errnoByName = map[string]syscall.Errno{
 	"EIO": syscall.EIO, "ENOSPC": syscall.ENOSPC, "EROFS": syscall.EROFS, "EMFILE": syscall.EMFILE,
 	"EXDEV": syscall.EXDEV, "EPERM": syscall.EPERM, "EDQUOT": syscall.EDQUOT, "EINTR": syscall.EINTR,
 	"EEXIST": syscall.EEXIST, "EBUSY": syscall.EBUSY, "EPIPE": syscall.EPIPE, "EBADF": syscall.EBADF,
+	"ETXTBSY": syscall.ETXTBSY, "ENAMETOOLONG": syscall.ENAMETOOLONG, "ELOOP": syscall.ELOOP, "EAGAIN": syscall.EAGAIN, "ENOTSUP": syscall.ENOTSUP,
 }
 
 // IsErrno reports whether kind names an error-returning fault (as opposed to a corruption).
@@ -41,9 +42,18 @@ func op(kind, path string) (seq int, f *Fault) {
 		return -1, &Fault{Kind: "EIO", OpKind: kind}
 	}
 	if len(cur.Ops) >= MaxOps {
-		// a run that performs this many operations is spinning: stop recording (memory), no faults apply
+		// a run that performs this many operations on a bounded world is spinning (a retry loop that never gives up)
 		cur.WorldUse["ops-beyond-recording-cap"]++
-		return -1, nil
+		panic(Unbounded{"more than 200000 file operations in one build: the command does not come to an end"})
+	}
+	if cur.Persist != nil && cur.Persist.OpKind == kind {
+		// a persistent condition (the file is busy for good, the device stays full): every operation of the kind fails
+		seq = len(cur.Ops)
+		cur.Ops = append(cur.Ops, Op{Seq: seq, Kind: kind, Path: path, Fault: cur.Persist.Kind})
+		if len(cur.Fired) < 4 {
+			cur.Fired = append(cur.Fired, *cur.Persist)
+		}
+		return seq, cur.Persist
 	}
 	seq = len(cur.Ops)
 	cur.Ops = append(cur.Ops, Op{Seq: seq, Kind: kind, Path: path})
